@@ -11,6 +11,7 @@ CONSTANTS
   Seq = FALSE
   UseLock = TRUE
   UseGapAtomic = FALSE
+  FinalTestsDone = TRUE
   AbortEnabled = TRUE
 SYMMETRY Perms
 INVARIANT TypeOK
@@ -19,7 +20,6 @@ INVARIANT NoLostInsert
 INVARIANT FinalValid
 INVARIANT FlagsTruthful
 INVARIANT CompleteOrExhausted
-INVARIANT PanicOnlyIfShortOrStale
 INVARIANT NoSpuriousPanic
 INVARIANT AbortBounded
 CHECK_DEADLOCK TRUE
